@@ -415,25 +415,25 @@ impl Scala {
             .try_for_each(|comment| self.write_comment(w, indent, comment))
     }
 
+    /// The innermost segment of the package: the name of the `package object` / `package` blocks.
+    /// A package without a dot (`--scala-package types`) has no enclosing package, but still
+    /// needs the blocks that `end_package_object` / `end_package` close.
+    fn innermost_package(&self) -> &str {
+        self.package
+            .rsplit_once('.')
+            .map(|(_parent, last)| last)
+            .unwrap_or(&self.package)
+    }
+
     fn begin_package_object(&mut self, w: &mut dyn Write) -> std::io::Result<()> {
-        match self.package.rsplit_once('.') {
-            None => {}
-            Some((_parent, last)) => {
-                writeln!(w, "package object {} {{", last)?;
-                writeln!(w)?;
-            }
-        };
+        writeln!(w, "package object {} {{", self.innermost_package())?;
+        writeln!(w)?;
         Ok(())
     }
 
     fn begin_package(&mut self, w: &mut dyn Write) -> std::io::Result<()> {
-        match self.package.rsplit_once('.') {
-            None => {}
-            Some((_parent, last)) => {
-                writeln!(w, "package {} {{", last)?;
-                writeln!(w)?;
-            }
-        };
+        writeln!(w, "package {} {{", self.innermost_package())?;
+        writeln!(w)?;
         Ok(())
     }
 
